@@ -97,7 +97,7 @@ pub fn pedersen<C: Cv>(patterns: &[Value], seed: u64, out: &mut Vec<Value>) {
             };
             for v in 0..C::ORDER {
                 for r in 0..C::ORDER {
-                    if C::ORDER > 100 && (v * 7 + r * 13) % 97 != 0 {
+                    if C::ORDER > 100 && (v * 7 + r * 13) % 1999 != 0 {
                         continue;
                     }
                     let (vf, rf) = (Fr::<C>::from(v), Fr::<C>::from(r));
